@@ -34,19 +34,19 @@ var reviewedMapLoops = map[string]struct {
 	needSortIn string // a sort.* call must exist in this function (or "" = reason only)
 	reason     string
 }{
-	"geom.(*doublyConnectedEdgeList).extractPolygons":   {"geom.(*doublyConnectedEdgeList).extractPolygons", "polygons are sorted after extraction; ring order is fixed by orderPolygonRings and ring start by the minimal rotation"},
-	"geom.(*doublyConnectedEdgeList).extractLineStrings": {"geom.(*doublyConnectedEdgeList).extractLineStrings", "each edge is extracted in canonical direction and the line strings are sorted"},
-	"geom.(*doublyConnectedEdgeList).extractPoints":      {"geom.(*doublyConnectedEdgeList).extractPoints", "points are sorted"},
-	"geom.(*doublyConnectedEdgeList).fixVertex":          {"geom.(*doublyConnectedEdgeList).fixVertex", "incident edges are sorted radially before being linked"},
-	"geom.(*doublyConnectedEdgeList).fixVertices":        {"", "per-vertex fix-up; each vertex is handled independently"},
-	"geom.(*doublyConnectedEdgeList).assignFaces":        {"", "cycle discovery marks whole cycles and the flood fill is a fixpoint: the labelling does not depend on the start edge (face slice order is internal)"},
-	"geom.(*doublyConnectedEdgeList).populateInSetLabels": {"", "monotone OR-accumulation to a fixpoint per element"},
+	"geom.(*doublyConnectedEdgeList).extractPolygons":           {"geom.(*doublyConnectedEdgeList).extractPolygons", "polygons are sorted after extraction; ring order is fixed by orderPolygonRings and ring start by the minimal rotation"},
+	"geom.(*doublyConnectedEdgeList).extractLineStrings":        {"geom.(*doublyConnectedEdgeList).extractLineStrings", "each edge is extracted in canonical direction and the line strings are sorted"},
+	"geom.(*doublyConnectedEdgeList).extractPoints":             {"geom.(*doublyConnectedEdgeList).extractPoints", "points are sorted"},
+	"geom.(*doublyConnectedEdgeList).fixVertex":                 {"geom.(*doublyConnectedEdgeList).fixVertex", "incident edges are sorted radially before being linked"},
+	"geom.(*doublyConnectedEdgeList).fixVertices":               {"", "per-vertex fix-up; each vertex is handled independently"},
+	"geom.(*doublyConnectedEdgeList).assignFaces":               {"", "cycle discovery marks whole cycles and the flood fill is a fixpoint: the labelling does not depend on the start edge (face slice order is internal)"},
+	"geom.(*doublyConnectedEdgeList).populateInSetLabels":       {"", "monotone OR-accumulation to a fixpoint per element"},
 	"geom.(*doublyConnectedEdgeList).extractIntersectionMatrix": {"", "matrix entries are set in dimension-ascending passes; within a pass every write stores the same constant"},
-	"geom.(*vertexRecord).location":                     {"", "all incident edges of an unflagged vertex have the same location, so any element gives the same answer"},
-	"geom.findFacesMakingPolygon":                       {"", "set construction by flood fill; the resulting set is order independent"},
-	"geom.(nodeSet).list":                              {"", "consumers (reNodeLineString) sort the cut points by distance and de-duplicate them"},
-	"geom.(graph).hasCycle":                             {"", "pure existence test"},
-	"geom.(MultiLineString).Boundary":                   {"", "counts are accumulated in a map but emitted in first-occurrence order from a slice"},
+	"geom.(*vertexRecord).location":                             {"", "all incident edges of an unflagged vertex have the same location, so any element gives the same answer"},
+	"geom.findFacesMakingPolygon":                               {"", "set construction by flood fill; the resulting set is order independent"},
+	"geom.(nodeSet).list":                                       {"", "consumers (reNodeLineString) sort the cut points by distance and de-duplicate them"},
+	"geom.(graph).hasCycle":                                     {"", "pure existence test"},
+	"geom.(MultiLineString).Boundary":                           {"", "counts are accumulated in a map but emitted in first-occurrence order from a slice"},
 }
 
 func runC10Order(c *Ctx) {
